@@ -211,7 +211,7 @@ func genServeCases(rng *Rng, n int, maxReq int, bigBodies bool, wfPct int) {
 			// multipart pre-parsing switched on: the limit check must still come first
 			flags = strings.Replace(flags+"p", "-", "", 1)
 			body := genBodyBytes(rng, 50+rng.Intn(200))
-			mp := "POST /mp HTTP/1.1\r\nHost: h\r\nContent-Type: multipart/form-data; boundary=" + pick(rng, []string{"xyz", "\"q b\"", "----b"}) + "\r\nContent-Length: " + strconv.Itoa(len(body)) + "\r\n\r\n"
+			mp := "POST /mp HTTP/1.1\r\nHost: h\r\nContent-Type: multipart/form-data; boundary=" + pick(rng, []string{"xyz", "\"q b\"", "----b", "\"", "\"\"", "\"a", "a\"", "", ";", "\"; charset=x", "x; boundary=y", " ", "\"\\\"\""}) + "\r\nContent-Length: " + strconv.Itoa(len(body)) + "\r\n\r\n"
 			stream = append(append([]byte(mp), body...), stream...)
 			if rng.Bool() {
 				maxBody = pick(rng, []string{"10", "40"})
@@ -288,6 +288,7 @@ func init() {
 			n = 150000
 		}
 		genServeCases(rng, n, 4, true, 15)
+		genRedir(rng, n/5)
 		genReqHeads(rng, n*8)
 		// client response read path under hostile input
 		for i := 0; i < n*2; i++ {
